@@ -1,6 +1,8 @@
 package ed25519
 
 import (
+	"sync"
+	"runtime"
 	"bytes"
 	"strings"
 	"crypto"
@@ -919,4 +921,174 @@ func jobC06(c *rt.Ctx) {
 			}
 		}
 	}
+	// level env: the environment as a dimension. (1) every GOMAXPROCS value 1..64 and 96, 128, 256: full
+	// chunks with one bad entry at the first / middle / each of the last four positions, a bad entry in a
+	// second chunk and in the tail, and all-valid batches. (2) k = 0..6, 8 other VerifyBatch calls IN
+	// FLIGHT (parked inside their entropy readers, under another context) while two batches - one with
+	// a forged last entry, one honest under a third context - run to completion; then the parked calls
+	// are released and must report their honest entries valid. Work split over "as many workers as
+	// processors", pools of scratch objects with a fixed number of slots and counters of calls in
+	// progress behave differently only along these dimensions.
+	c.Require("level-env")
+	envShapes := []struct {
+		n   int
+		bad []int
+	}{{64, nil}, {64, []int{0}}, {64, []int{31}}, {64, []int{60}}, {64, []int{61}}, {64, []int{62}}, {64, []int{63}}, {68, []int{67}}, {128, []int{127}}, {130, []int{64, 129}}, {132, []int{128}}}
+	var gmps []int
+	for g := 1; g <= 64; g++ {
+		gmps = append(gmps, g)
+	}
+	gmps = append(gmps, 96, 128, 256)
+	for gi, g := range gmps {
+		if !c.Take() {
+			continue
+		}
+		c.Class("level-env")
+		c.Distinct(fmt.Sprintf("env gmp %d", g), true)
+		old := runtime.GOMAXPROCS(g)
+		for si, sh := range envShapes {
+			o := opts[(gi+si)%len(opts)]
+			bad := map[int]string{}
+			for j, p := range sh.bad {
+				bad[p] = c06Kinds[1+(gi+si+j)%4]
+			}
+			es, ks := build(sh.n, bad, o.vs)
+			checkBatch(c, fmt.Sprintf("level-env GOMAXPROCS=%d", g), es, ks, o.vs, o.zip, (gi+si)%2, fmt.Sprintf("env-%d-%d", g, si))
+		}
+		runtime.GOMAXPROCS(old)
+	}
+	for _, g := range []int{1, 4, 16, 32} {
+		for _, k := range []int{0, 1, 2, 3, 4, 5, 6, 8} {
+			if !c.Take() {
+				continue
+			}
+			c.Class("level-env")
+			c.Distinct(fmt.Sprintf("env inflight %d %d", g, k), true)
+			old := runtime.GOMAXPROCS(g)
+			parkedVs := variantSpec{ref.Ctx, "parked-ctx"}
+			type pres struct {
+				all   bool
+				valid []bool
+				err   error
+				pv    interface{}
+			}
+			results := make([]pres, k)
+			release := make(chan struct{})
+			entered := make(chan int, k)
+			var wg sync.WaitGroup
+			parkedEntries := make([][]triple, k) // built here: the harness's memo tables are not for concurrent use
+			for i := range parkedEntries {
+				parkedEntries[i] = make([]triple, 8)
+				for j := range parkedEntries[i] {
+					parkedEntries[i][j] = honestTriple(5200+j, []byte{byte(i), byte(j)}, parkedVs)
+				}
+			}
+			for i := 0; i < k; i++ {
+				wg.Add(1)
+				go func(i int) {
+					defer wg.Done()
+					es := parkedEntries[i]
+					rd := &parkingReader{entered: entered, release: release, id: i, r: rt.NewRng(c.Seed, fmt.Sprint("parked", i))}
+					a, v, e, pv := implBatchReader(es, parkedVs, false, rd)
+					results[i] = pres{a, v, e, pv}
+				}(i)
+			}
+			for i := 0; i < k; i++ {
+				<-entered
+			}
+			// two batches run to completion while k calls are in flight
+			es, ks := build(64, map[int]string{63: "S-bitflip"}, vPure)
+			checkBatch(c, fmt.Sprintf("level-env inflight=%d GOMAXPROCS=%d", k, g), es, ks, vPure, false, 0, fmt.Sprintf("inf-%d-%d", g, k))
+			es2, ks2 := build(64, map[int]string{60: "wrong-msg"}, vPure)
+			checkBatch(c, fmt.Sprintf("level-env inflight=%d GOMAXPROCS=%d", k, g), es2, ks2, vPure, true, 1, fmt.Sprintf("inf2-%d-%d", g, k))
+			third := variantSpec{ref.Ctx, "third-ctx"}
+			es3, ks3 := build(8, nil, third)
+			checkBatch(c, fmt.Sprintf("level-env inflight=%d GOMAXPROCS=%d", k, g), es3, ks3, third, false, 1, fmt.Sprintf("inf3-%d-%d", g, k))
+			close(release)
+			wg.Wait()
+			for i, r := range results {
+				ok := r.pv == nil && r.err == nil && r.all && len(r.valid) == 8
+				for _, v := range r.valid {
+					ok = ok && v
+				}
+				if !ok {
+					c.Violation("C06 level-env parked call", fmt.Sprintf("an honest batch of 8 under context %q that was in flight (parked in its entropy reader) while %d other calls were in flight and three batches ran: all=%v valid=%v err=%v panic=%v (GOMAXPROCS=%d, parked call %d)", parkedVs.ctx, k-1, r.all, r.valid, r.err, r.pv, g, i),
+						map[string]interface{}{"inflight": k, "gomaxprocs": g, "parked_call": i})
+					break
+				}
+			}
+			runtime.GOMAXPROCS(old)
+		}
+	}
+	// level compensating: TWO bad entries whose errors cancel in the batch equation if their randomisers
+	// coincide (or one is a fixed multiple of the other): scalar halves S_i + d and S_j - d; and three
+	// entries S_i + d, S_j + d, S_k - 2d. Every pair of positions in small batches, neighbouring pairs
+	// and first/last pairs of each chunk in large ones. Each entry alone is rejected; so must both be.
+	c.Require("level-compensating")
+	shiftS := func(t triple, d *big.Int) triple {
+		S := ref.LE(t.sig[32:])
+		S.Add(S, d)
+		S.Mod(S, ref.L)
+		return triple{t.key, t.msg, append(append([]byte{}, t.sig[:32]...), ref.ToLE(S, 32)...)}
+	}
+	ds := []*big.Int{big.NewInt(1), new(big.Int).Lsh(big.NewInt(1), 127), new(big.Int).Lsh(big.NewInt(1), 128), new(big.Int).Rsh(ref.L, 1)}
+	for _, n := range []int{4, 5, 6, 7, 8, 9, 64, 65, 68, 69, 70, 133} {
+		var pairs [][2]int
+		if n <= 9 {
+			for i := 0; i < n; i++ {
+				for j := i + 1; j < n; j++ {
+					pairs = append(pairs, [2]int{i, j})
+				}
+			}
+		} else {
+			last := ((n - 1) / 64) * 64
+			if n-last < 4 {
+				last -= 64
+			}
+			cands := [][2]int{{0, 1}, {62, 63}, {0, 63}, {n - 2, n - 1}, {last, n - 1}, {last, last + 1}, {63, 64}}
+			for _, pr := range cands {
+				if pr[0] >= 0 && pr[1] < n && pr[0] < pr[1] {
+					pairs = append(pairs, pr)
+				}
+			}
+		}
+		for pi, pr := range pairs {
+			for di, d := range ds {
+				oi := (pi + di + n) % len(opts)
+				if !c.Take() {
+					continue
+				}
+				o := opts[oi]
+				es, ks := build(n, nil, o.vs)
+				es[pr[0]], ks[pr[0]] = shiftS(es[pr[0]], d), "S+d"
+				es[pr[1]], ks[pr[1]] = shiftS(es[pr[1]], new(big.Int).Neg(d)), "S-d"
+				if di == 3 && pr[1]+1 < n && (pr[1]+1)/64 == pr[1]/64 {
+					// triple: +d, +d, -2d
+					es[pr[1]], ks[pr[1]] = shiftS(mkEntry("good", pr[1], o.vs), d), "S+d"
+					es[pr[1]+1], ks[pr[1]+1] = shiftS(es[pr[1]+1], new(big.Int).Mul(d, big.NewInt(-2))), "S-2d"
+				}
+				c.Class("level-compensating")
+				c.Distinct(fmt.Sprintf("comp %d %d %d", n, pi, di), true)
+				checkBatch(c, "level-compensating", es, ks, o.vs, o.zip, (n+pi)%2, fmt.Sprintf("comp-%d-%d", n, pi))
+			}
+		}
+	}
+}
+
+// parkingReader blocks inside its first Read until released (a call "in flight"), then delivers.
+type parkingReader struct {
+	entered chan int
+	release chan struct{}
+	id      int
+	r       io.Reader
+	parked  bool
+}
+
+func (p *parkingReader) Read(b []byte) (int, error) {
+	if !p.parked {
+		p.parked = true
+		p.entered <- p.id
+		<-p.release
+	}
+	return p.r.Read(b)
 }
